@@ -1,0 +1,39 @@
+//go:build verif
+
+package pppoe
+
+import "net"
+
+// Verification seams for property C09 (exhausted-state hammer in /verif): accessors
+// for unexported fields, no behaviour of their own.
+
+// VerifC09ClientPoolFree returns the number of free addresses of the client pool
+// (-1 if the server has no client pool).
+func (s *Server) VerifC09ClientPoolFree() int {
+	p := s.clientIPPool
+	if p == nil {
+		return -1
+	}
+	p.mu.Lock()
+	defer p.mu.Unlock()
+	return len(p.available)
+}
+
+// VerifC09SessionClientIP returns the address assigned to a session (nil if the
+// session does not exist or holds none).
+func (s *Server) VerifC09SessionClientIP(id uint16) net.IP {
+	sess := s.sessions.GetSession(id)
+	if sess == nil {
+		return nil
+	}
+	return sess.ClientIP
+}
+
+// VerifC09SetNextSessionID sets the session manager's id counter: the value it
+// has after that many sessions were created over the server's life time (the
+// counter is 16 bits wide and wraps around; ids of live sessions are skipped).
+func (s *Server) VerifC09SetNextSessionID(id uint16) {
+	s.sessions.mu.Lock()
+	s.sessions.nextID = id
+	s.sessions.mu.Unlock()
+}
